@@ -8,31 +8,25 @@ def parseMatches (s : String) : Option (List Bytes) :=
     if r.isEmpty then some [] else (r.splitOn ",").mapM Hex.decode
   else none
 
-def verdict (phs : Phs) (tmpl : Bytes) (modelSeq : Bytes) (impl : String) : DrvOut :=
-  let want := sim phs tmpl
-  let splice := spliceTemplate phs tmpl
-  -- inside the class the model makes no prediction (the code may do either); outside seq = sim
-  let model := if splice then "-" else Hex.encode modelSeq
+def verdict (want : Bytes) (impl : String) : DrvOut :=
   let spec :=
     match Hex.decode impl with
     | none => "FAIL unparsable implementation answer"
     | some got =>
       if got == want then "ok"
-      else if splice && got == modelSeq then
-        "KNOWN spliceTemplate sequential ReplaceAll rescanned an inserted value or a placeholder completed by one (simultaneous substitution gives " ++ Hex.encode want ++ ")"
       else "FAIL result is not the template with each placeholder replaced once, left to right (expected " ++ Hex.encode want ++ ")"
-  { model, spec }
+  { model := Hex.encode want, spec }
 
 def step (_ : Unit) (op impl : String) : Unit × DrvOut :=
   match words op with
   | ["reset"] => ((), { model := "ok" })
   | ["src", t, q, m] =>
     match Hex.decode t, Hex.decode q, parseMatches m with
-    | some t, some q, some m => ((), verdict (sourcePhs m q) t (resolveSource t m q) impl)
+    | some t, some q, some m => ((), verdict (resolveSource t m q) impl)
     | _, _, _ => ((), { model := "bad-op" })
   | ["dst", t, p, m] =>
     match Hex.decode t, Hex.decode p, parseMatches m with
-    | some t, some p, some m => ((), verdict (destPhs p m) t (resolveDest t p m) impl)
+    | some t, some p, some m => ((), verdict (resolveDest t p m) impl)
     | _, _, _ => ((), { model := "bad-op" })
   | _ => ((), { model := "bad-op" })
 
